@@ -84,6 +84,13 @@ def fam_messages(mm, with_typename):
         req["typeName"], nt["typeName"], nop["typeName"] = "ZzDoThingRequest", "ZzDidThingNotification", "ZzPingRequest"
     m["requests"] += [req, nop]
     m["notifications"].append(nt)
+    if with_typename:
+        # a typeName that contains "Request" / "Notification" BEFORE the suffix as well (GitHub-style "pull request"): the names of the
+        # request / response / params classes derive from it by removing the SUFFIX only
+        m["requests"].append({"method": "zz/pullRequestInfo", "typeName": "ZzPullRequestInfoRequest", "messageDirection": "clientToServer",
+                              "params": ref("ZzNew"), "result": {"kind": "or", "items": [ref("ZzBase"), NULL]}})
+        m["notifications"].append({"method": "zz/notificationCenterChanged", "typeName": "ZzNotificationCenterChangedNotification",
+                                   "messageDirection": "serverToClient", "params": ref("ZzNew")})
     return m
 
 
